@@ -671,6 +671,40 @@ def r5(k: Kit) -> None:
               'DISCONNECT sent and connection force-closed',
               'DisconnectError handler does not send DISCONNECT and '
               'force-close', k.loc(fi, target))
+    # ... on every path through that handler, and with the error itself
+    g0 = k.cfg(fi)
+    for h in target.handlers:
+        names = [] if h.type is None else [
+            dotted(e) for e in (h.type.elts if isinstance(h.type, ast.Tuple)
+                                else [h.type])]
+        if 'DisconnectError' not in names or not h.body:
+            continue
+        start = None
+        for st in h.body:
+            for x in ast.walk(st):
+                nd = g0.node_for(x)
+                if nd is not None:
+                    start = nd
+                    break
+            if start is not None:
+                break
+        closes = [n.id for n, c in k.calls_named(fi, '_force_close', 'self')
+                  if c.args and dotted(c.args[0]) == h.name]
+        w = g0.path(start.id, g0.exit, blocked_nodes=closes,
+                    follow_exc=False) if start is not None and closes \
+            else [0]
+        if start is not None and start.id in closes:
+            w = None
+        rep.check(w is None, 'C01.R5',
+                  key(fi, 'every DisconnectError path reports the error'),
+                  'every path through the handler force-closes with the '
+                  'caught error',
+                  'a path through the DisconnectError handler (MACError '
+                  'included) ends the connection without handing the error '
+                  'to _force_close: the owner sees a clean close and readers '
+                  'a normal EOF after tampering', k.loc(fi, target),
+                  g0.describe_path(w) if isinstance(w, list) and len(w) > 1
+                  else None)
     rep.check(have_all, 'C01.R5', key(fi, 'catch-all'),
               'catch-all → internal_error', 'no catch-all handler that closes '
               'the connection', k.loc(fi, target))
@@ -746,6 +780,17 @@ def run(idx, rep, tier):
     r4(k)
     r5(k)
     r7(k)
+    # R8: the two directions use different integrity / encryption keys and
+    # each direction its own parameters: = C02.R2 (key schedule by data flow)
+    from .c02 import r2 as c02r2
+    rep.rule('C01.R8', 'key schedule (= C02.R2): six derivations with the '
+             'letters A..F, client-to-server and server-to-client keys are '
+             'distinct derivations, each role installs its own direction; a '
+             'shared MAC key would let a packet be reflected at its sender')
+    before = len(rep.obligations)
+    c02r2(k)
+    for o in rep.obligations[before:]:
+        o.rule = 'C01.R8'
     # R6: prefix truncation (dropping the first encrypted packets by
     # injecting cleartext ones before keys are in effect) is only detected
     # if strict KEX is enforced: = C06.R2
